@@ -84,6 +84,16 @@ class SadMonitor:
             self.broken.add(ep.name)
             extra, missing = model - want, want - model
             kind = 'installed-untracked' if extra and not missing else 'tracked-absent' if missing and not extra else 'both'
+            # an SA whose own DELSA the (fault-injecting) kernel refused in this step stays installed: that is one mechanism (a recorded finding on the pinned
+            # tree). Any OTHER SA left behind in the same step - the twin whose removal was never even asked for - is a different one and gets its own key
+            refused = set()
+            for r in rec.nl:
+                if r.get('fault') and r['msg'] and r['msg']['name'] == 'DELSA':
+                    i_ = r['msg']['id']
+                    spi_ = i_['spi'] if isinstance(i_['spi'], (bytes, bytearray)) else bytes.fromhex(i_['spi'])
+                    refused.add((str(i_['daddr']), i_['proto'], bytes(spi_)))
+            if kind == 'installed-untracked' and refused and not extra <= refused:
+                kind = 'installed-untracked-beyond-the-sa-whose-removal-was-refused'
             ck.violation(f'{self.prefix}sad-mismatch:{kind}@{ctx_of(rec)}',
                          {'installed_but_untracked': sorted(map(repr, extra)), 'tracked_but_absent': sorted(map(repr, missing)),
                           'states_after': [s['state'] for s in rec.after], 'trace': sim.trace[-12:]}, self.case(sim))
